@@ -41,8 +41,17 @@ def selected(it):
 
 def body(c):
     blen = 2 if c.quick else 3
-    # ---- mode M ---------------------------------------------------------------------------------
-    m = vlib.run_tlc("conc/HttpMethod.tla", "conc/MC_HttpMethod.cfg", workers=2, coverage=True, timeout=900)
+    # ---- modes M and G (three independent TLC runs, 4 workers in total, run side by side) ----------
+    gcfg = c.path("Gen_HttpMethod.cfg")
+    with open(gcfg, "w") as f:
+        f.write("CONSTANT Dev = {}\nCONSTANT BatchLen = %d\nINIT Init\nNEXT GNext\nINVARIANT Emit\n" % blen)
+    from concurrent.futures import ThreadPoolExecutor
+    with ThreadPoolExecutor(3) as ex:
+        fm = ex.submit(vlib.run_tlc, "conc/HttpMethod.tla", "conc/MC_HttpMethod.cfg", workers=2, coverage=True, timeout=900)
+        fd = ex.submit(vlib.run_tlc, "conc/HttpMethod.tla", "conc/MC_HttpMethodDev.cfg", workers=1, timeout=900,
+                       expect_violation=True)
+        fg = ex.submit(vlib.run_tlc, "conc/HttpMethod.tla", gcfg, workers=1, timeout=900, keep_lines=50)
+        m, d, g = fm.result(), fd.result(), fg.result()
     if m.invariant_violated:
         raise vlib.ToolError("design-level failure in HttpMethod.tla: " + str(m.invariant_violated))
     for act in ("Decode", "Select", "Reject", "Admit", "Execute", "Respond"):
@@ -51,16 +60,10 @@ def body(c):
     if m.coverage.get("HttpMethod!DevGetMutation", (0, 0))[0] != 0:
         raise vlib.ToolError("the ideal model took a deviation action")
     c.add_tlc("M HttpMethod ideal (BatchLen=2; 6 invariants + termination)", m)
-    d = vlib.run_tlc("conc/HttpMethod.tla", "conc/MC_HttpMethodDev.cfg", workers=1, timeout=900, expect_violation=True)
     if d.invariant_violated != "GetNeverMutates":
         raise vlib.ToolError("the model of today's code (all DevGetMutation* on) does not violate GetNeverMutates: %s"
                              % d.invariant_violated)
     c.add_tlc("M HttpMethod with all deviations on (must violate GetNeverMutates)", d)
-    # ---- mode G ---------------------------------------------------------------------------------
-    gcfg = c.path("Gen_HttpMethod.cfg")
-    with open(gcfg, "w") as f:
-        f.write("CONSTANT Dev = {}\nCONSTANT BatchLen = %d\nINIT Init\nNEXT GNext\nINVARIANT Emit\n" % blen)
-    g = vlib.run_tlc("conc/HttpMethod.tla", gcfg, workers=2, timeout=900, keep_lines=50)
     c.add_tlc("G request matrix (BatchLen=%d)" % blen, g)
     cells = sorted(set(t[1] for t in g.tagged("REPLAY")))
     if len(cells) != g.distinct:
